@@ -50,6 +50,28 @@ func main() {
 		}
 		return
 	}
+	if *prop == "deferr" { // debugging aid: the deferred-error lint over every production package
+		p, err := Load(LoadOpts{Root: *repo, GOOS: "linux", GOARCH: "amd64"})
+		if err != nil {
+			fmt.Println(err)
+			os.Exit(2)
+		}
+		c := newCtx(p, "deferr", "quick")
+		var shorts []string
+		for _, pk := range p.Pkgs {
+			if production(pk) {
+				shorts = append(shorts, shortPkg(pk.PkgPath))
+			}
+		}
+		n := DeferredErrorsReachResult(c, "deferred-error-reaches-result", shorts...)
+		for _, o := range c.Obs {
+			if o.Verdict != "held" {
+				fmt.Println(o.Verdict, o.Construct, o.Site, o.Detail)
+			}
+		}
+		fmt.Println(n, "functions with error-storing defers")
+		return
+	}
 	spec := registry[*prop]
 	if spec == nil {
 		fmt.Printf("unknown property %q\n", *prop)
